@@ -110,10 +110,19 @@ func syscallBody(r *rand.Rand, name string, items int) string {
 	if r.Intn(4) == 0 {
 		succ, exit = "no", "-13"
 	}
-	return fmt.Sprintf(`arch=c000003e syscall=%d success=%s exit=%s a0=%x a1=%x a2=%x a3=%x items=%d ppid=%d pid=%d auid=%d uid=%s gid=%s euid=%s suid=%s fsuid=%s egid=%s sgid=%s fsgid=%s tty=pts0 ses=%d comm="%s" exe="/usr/bin/%s" subj=u_%s:r_%s:t_%s:s0 key="k%s"`,
+	key := `"k` + coWord(r) + `"`
+	switch r.Intn(6) {
+	case 0: // several keys, joined by 0x01 and therefore written in hex; a key is any text the rule's author chose
+		ks := []string{coWord(r), " " + coWord(r), coWord(r) + " ", "\t" + coWord(r) + " k", coWord(r) + "=" + coWord(r), " "}
+		r.Shuffle(len(ks), func(i, j int) { ks[i], ks[j] = ks[j], ks[i] })
+		key = strings.ToUpper(hex.EncodeToString([]byte(strings.Join(ks[:1+r.Intn(4)], "\x01"))))
+	case 1:
+		key = "(null)"
+	}
+	return fmt.Sprintf(`arch=c000003e syscall=%d success=%s exit=%s a0=%x a1=%x a2=%x a3=%x items=%d ppid=%d pid=%d auid=%d uid=%s gid=%s euid=%s suid=%s fsuid=%s egid=%s sgid=%s fsgid=%s tty=pts0 ses=%d comm="%s" exe="/usr/bin/%s" subj=u_%s:r_%s:t_%s:s0 key=%s`,
 		coSyscalls[name], succ, exit, r.Intn(1<<20), r.Intn(1<<20), r.Intn(1<<20), r.Intn(1<<20), items, 1+r.Intn(30000), 1+r.Intn(30000),
 		[]int{0, 1000, 4294967295}[r.Intn(3)], coIDs(r), coIDs(r), coIDs(r), coIDs(r), coIDs(r), coIDs(r), coIDs(r), coIDs(r),
-		1+r.Intn(500), coWord(r), coWord(r), coWord(r), coWord(r), coWord(r), coWord(r))
+		1+r.Intn(500), coWord(r), coWord(r), coWord(r), coWord(r), coWord(r), key)
 }
 
 func pathBody(r *rand.Rand, item int, mode int) string {
@@ -222,6 +231,16 @@ func randomGroup(r *rand.Rand) ([]recSpec, string) {
 	}
 	if r.Intn(4) == 0 {
 		rest = append(rest, recSpec{[]int{1321, 1323, 1325, 1303, 1334}[r.Intn(5)], fmt.Sprintf("fd=%d flags=0x%x", r.Intn(10), r.Intn(256)) + extras(r, r.Intn(4))})
+	}
+	if r.Intn(4) == 0 { // a record with an outcome of its own, which need not be the system call's
+		res := []string{"res=0", "res=1", "res=failed", "res=success", "success=no", "success=yes", "success=0", "res=no"}[r.Intn(8)]
+		body := [][2]interface{}{
+			{1305, fmt.Sprintf(`auid=%d ses=%d op=add_rule key="%s" list=4 %s`, coID(r), 1+r.Intn(500), coWord(r), res)},
+			{1805, fmt.Sprintf(`auid=%d ses=%d op=policy_update cause=%s comm="%s" %s`, coID(r), 1+r.Intn(500), coWord(r), coWord(r), res)},
+			{1325, fmt.Sprintf(`table=%s family=2 entries=%d op=xt_replace %s`, coWord(r), r.Intn(50), res)},
+			{1400, fmt.Sprintf(`avc:  granted  { load_policy } for  pid=%d comm="%s" scontext=a:b:c:s0 tcontext=d:e:f:s0 tclass=security %s`, r.Intn(30000), coWord(r), res)},
+		}[r.Intn(4)]
+		rest = append(rest, recSpec{body[0].(int), body[1].(string) + extras(r, r.Intn(2))})
 	}
 	r.Shuffle(len(rest), func(i, j int) { rest[i], rest[j] = rest[j], rest[i] })
 	sys := recSpec{1300, syscallBody(r, name, npaths)}
@@ -754,6 +773,112 @@ func coalesceIsoCmd(args []string) int {
 			}
 		}
 		runPool(ng, ops)
+	}
+
+	// different events that mention the same ids, resolved at the same time against caches whose backing
+	// lookups take a while (an NSS or LDAP source): written down as the resolutions one after the other, and
+	// followed by the same messages coalesced again and resolved alone - the outcome must not depend on what
+	// else was being resolved
+	for round := 0; round < 10 && !*onlyStress; round++ {
+		slow := func(m map[string]string) func(string) string {
+			return func(k string) string { time.Sleep(2 * time.Millisecond); return m[k] }
+		}
+		cu := aucoalesce.VerifNewEntityCache(time.Hour, slow(uByID), slow(uByName))
+		cg := aucoalesce.VerifNewEntityCache(time.Hour, slow(gByID), slow(gByName))
+		su := aucoalesce.VerifNewEntityCache(time.Hour, func(k string) string { return uByID[k] }, func(k string) string { return uByName[k] })
+		sg := aucoalesce.VerifNewEntityCache(time.Hour, func(k string) string { return gByID[k] }, func(k string) string { return gByName[k] })
+		k := 2 + rng.Intn(4)
+		trace++
+		w.write(map[string]interface{}{"k": "reset", "trace": trace})
+		pool := make([][]*auparse.AuditMessage, k)
+		shared, _ := randomGroup(rng)
+		for g := range pool {
+			specs := shared
+			if g > 1 && rng.Intn(3) == 0 {
+				specs, _ = randomGroup(rng)
+			}
+			pool[g] = mkMsgs(specs, 1490137971, 11, uint32(900+g))
+		}
+		var events []*aucoalesce.Event
+		digests := func() []string {
+			ed := []string{}
+			for _, e := range events {
+				ed = append(ed, eventDigest(e))
+			}
+			return ed
+		}
+		record := func(op string, group, event int, ret string, ed []string) {
+			md := map[string]string{}
+			for gi := range pool {
+				md[strconv.Itoa(gi+1)] = msgDigest(pool[gi])
+			}
+			w.write(map[string]interface{}{"k": "iso", "trace": trace, "op": op, "group": group, "event": event, "ret": ret, "msgs": md, "events": ed})
+			stats["operations"]++
+		}
+		coalesce := func(g int) {
+			ret := "event"
+			func() {
+				defer func() {
+					if p := recover(); p != nil {
+						ret = "panic"
+					}
+				}()
+				ev, err := aucoalesce.CoalesceMessages(pool[g])
+				if err != nil || ev == nil {
+					ret = "err"
+				}
+				events = append(events, ev)
+			}()
+			if len(events) <= g { // panicked before the append
+				events = append(events, nil)
+			}
+			record("coalesce", g+1, len(events), ret, digests())
+		}
+		for g := range pool {
+			coalesce(g)
+		}
+		pre := digests()
+		rets := make([]string, k)
+		var wg sync.WaitGroup
+		for i := 0; i < k; i++ {
+			wg.Add(1)
+			go func(i int) {
+				defer wg.Done()
+				rets[i] = "event"
+				defer func() {
+					if p := recover(); p != nil {
+						rets[i] = "panic"
+					}
+				}()
+				if events[i] != nil {
+					aucoalesce.ResolveIDsFromCaches(events[i], cu, cg)
+				}
+			}(i)
+		}
+		wg.Wait()
+		post := digests()
+		for i := 0; i < k; i++ {
+			ed := append(append([]string{}, post[:i+1]...), pre[i+1:]...)
+			record("resolve", 0, i+1, rets[i], ed)
+		}
+		for g := range pool {
+			coalesce(g)
+		}
+		for g := range pool {
+			ret := "event"
+			func() {
+				defer func() {
+					if p := recover(); p != nil {
+						ret = "panic"
+					}
+				}()
+				if events[k+g] != nil {
+					aucoalesce.ResolveIDsFromCaches(events[k+g], su, sg)
+				}
+			}()
+			record("resolve", 0, k+g+1, ret, digests())
+		}
+		stats["concurrent_resolution_pools"]++
 	}
 
 	// concurrent coalescing / resolving of different events (meaningful in the race build)
